@@ -189,10 +189,17 @@ func RunC09(tier string, seed int64, outDir string, replay string) (*core.Result
 						}
 						continue
 					}
+					inputSide := inputClosure(oa.Em, d.Name)
 					for _, da := range oa.Em.Decls {
 						dt := together[da.Name]
 						if dt == nil {
-							res.Fail(core.Failure{Case: c.ID, Class: "C09/declaration-only-when-alone", What: fmt.Sprintf("operation %s alone declares %s, which is missing when generated together", d.Name, da.Name), Replay: c})
+							class := "C09/declaration-only-when-alone"
+							if inputSide[da.Name] {
+								// a type reachable only from the operation's variables: the shared input type
+								// was converted with another operation's options (typename via `for:`)
+								class = "C09/shared-input-type-options-differ"
+							}
+							res.Fail(core.Failure{Case: c.ID, Class: class, What: fmt.Sprintf("operation %s alone declares %s, which is missing when generated together", d.Name, da.Name), Replay: c})
 						} else if dt.Term() != da.Term() {
 							class := "C09/declaration-differs-alone-vs-together"
 							if dt.Kind == "struct" && !strings.Contains(dt.Term(), "__typename") && isInputLike(ex, da.Name) {
@@ -227,6 +234,25 @@ func RunC09(tier string, seed int64, outDir string, replay string) (*core.Result
 }
 
 // isInputLike: the Go name is the (cased) name of an input object of the schema.
+// inputClosure: the declarations reachable from the hidden __<Op>Input struct of an operation
+func inputClosure(em *obs.Emitted, op string) map[string]bool {
+	decl := declMap(em)
+	out := map[string]bool{}
+	var walk func(name string, depth int)
+	walk = func(name string, depth int) {
+		d := decl[name]
+		if d == nil || out[name] || depth > 12 {
+			return
+		}
+		out[name] = true
+		for _, f := range d.Fields {
+			walk(stripWrappers(f[1]), depth+1)
+		}
+	}
+	walk("__"+op+"Input", 0)
+	return out
+}
+
 func isInputLike(ex *export.Exported, goName string) bool {
 	for n, t := range ex.Schema.Types {
 		if t.Kind == "INPUT_OBJECT" && strings.EqualFold(strings.ReplaceAll(n, "_", ""), strings.ReplaceAll(goName, "_", "")) {
